@@ -44,7 +44,7 @@ BOARD_ROWS = {0: (0, 4), 1: (0, 5), 2: (0, 6), 3: (0, 7), 4: (1, 7),
 TRIAD_ETH = [(0, 0), (4, 8), (8, 4)]
 
 FAULTS = ["req_loss", "rep_loss", "rep_delay", "rep_dup", "retryable_rc",
-          "fatal_rc", "partition", "transient_busy"]
+          "fatal_rc", "partition", "transient_busy", "rep_batch"]
 
 
 def plan(tier, prop):
@@ -321,6 +321,7 @@ class CtxEngine(object):
         m.booted = True
         for s in c.net.sockets:
             s.inbox.clear()
+            del s.held[:]
         return "%s%s:%s" % ("quiet" if quiet else "faulty",
                             "+hiccup" if hiccup else "",
                             val if status == "ok" else type(val).__name__)
